@@ -490,6 +490,54 @@ func driveC06(c *driverCtx) error {
 		si := i % 3 // shapes 3 and 4 hold arrays of zero-byte items: dedicated witnesses below
 		add(robustCase{Entry: entry, Schema: shapes[si], Var: i, Bytes: b, Key: fmt.Sprintf("C06|random|shape%d|%s|len%d", si, entry, n)})
 	}
+	// (3b) valid encodings of deep seeded types (the harness's random legal writer) with random damage:
+	// byte substitutions, bit flips, truncations, insertions
+	{
+		feat := featuresFromKnown("C01")
+		feat.MaxDepth = 4
+		ntypes := c.pick(60, 1500)
+		for i := 0; i < ntypes; i++ {
+			t, _ := genType(c.rng, feat)
+			zero := reflect.New(t).Elem().Interface()
+			sch, err := avro.SchemaForType(zero)
+			if err != nil {
+				continue
+			}
+			sjb, err := sch.Marshal()
+			if err != nil {
+				continue
+			}
+			sn, err := schemaNodeFromJSON(sjb)
+			if err != nil || hasZeroSizeItems(sn) {
+				continue
+			}
+			encSmallInts = true
+			good := randomEncoding(c.rng, sn, 0)
+			encSmallInts = false
+			for k := 0; k < c.pick(6, 20); k++ {
+				b := append([]byte{}, good...)
+				if len(b) == 0 {
+					break
+				}
+				switch k % 4 {
+				case 0:
+					b[c.rng.Intn(len(b))] = alphabet[c.rng.Intn(len(alphabet))]
+				case 1:
+					b[c.rng.Intn(len(b))] ^= 1 << uint(c.rng.Intn(8))
+				case 2:
+					b = b[:c.rng.Intn(len(b))]
+				default:
+					at := c.rng.Intn(len(b))
+					b = append(b[:at], append(replSet[c.rng.Intn(len(replSet))], b[at:]...)...)
+				}
+				entry := "read"
+				if k%5 == 4 {
+					entry = "skip"
+				}
+				add(robustCase{Entry: entry, Schema: string(sjb), Var: 0, Bytes: b, Key: fmt.Sprintf("C06|deep|damage%d|%s", k%4, entry)})
+			}
+		}
+	}
 	// huge declared counts of zero-byte items (arrays of null / of empty records): known finding, dedicated witnesses
 	zcounts := [][]byte{{254, 255, 255, 255, 15}}
 	if c.thorough() {
